@@ -714,6 +714,7 @@ class SymX:
                 loop.break_cond = mk_or(loop.break_cond, k_)
         loop.break_envs = [(k_, e_) for k_, e_ in after.snaps if e_.get("$broke", FALSE) != FALSE]
         loop.has_return = after.env.get("$returned", FALSE) != st.env.get("$returned", FALSE)
+        loop.return_cond = self._with_snaps(after, "$returned")
         loop.cont = after.env.get("$cont", FALSE)
         for v in carried:
             st.env[v] = ("res", loop.id, v)
@@ -969,6 +970,14 @@ class SymX:
         if name == "getattr" and len(args) == 2 and is_const(args[1]) and isinstance(args[1][1], str) and not kws:
             k_ = (args[0], args[1][1])
             return st.heap[k_] if k_ in st.heap else ("attr", args[0], args[1][1])
+        if name in ("map", "filter") and len(c.args) == 2 and not c.keywords and not any(isinstance(a, ast.Starred) for a in c.args):
+            r = self._map_as_comprehension(c, name, st, f, depth)
+            if r is not None:
+                return r
+        if name in ("functools.reduce", "reduce") and len(c.args) == 3 and not c.keywords and not any(isinstance(a, ast.Starred) for a in c.args):
+            r = self._reduce_as_loop(c, st, f, depth)
+            if r is not None:
+                return r
         # self.method(...) -> inline
         if isinstance(c.func, ast.Attribute) and isinstance(c.func.value, ast.Name) and c.func.value.id == "self" \
                 and self.cls_name and st.env.get("self") == ("v", "self"):
@@ -982,11 +991,21 @@ class SymX:
                 return self.inline_closure(fv[1], args, kws, st, depth)
             if fv[0] == "v" and fv[1] in f.mod.funcs and depth < self.inline_depth and fv[1] not in self.no_inline:
                 return self.inline(f.mod.funcs[fv[1]], args, kws, st, depth)
+            if fv[0] == "call" and fv[1] in ("attrgetter", "operator.attrgetter") and len(fv[2]) == 1 and is_const(fv[2][0]) and isinstance(fv[2][0][1], str) \
+                    and "." not in fv[2][0][1] and len(args) == 1 and not kws:
+                k_ = (args[0], fv[2][0][1])
+                return st.heap[k_] if k_ in st.heap else ("attr", args[0], fv[2][0][1])
+            if fv[0] == "call" and fv[1] in ("itemgetter", "operator.itemgetter") and len(fv[2]) == 1 and len(args) == 1 and not kws:
+                return simp(("idx", args[0], fv[2][0]))
             if fv[0] == "call" and fv[1] in ("methodcaller", "operator.methodcaller") and fv[2] and is_const(fv[2][0]) and isinstance(fv[2][0][1], str) and len(args) == 1:
                 return ("mcall", args[0], fv[2][0][1], tuple(fv[2][1:]), tuple(fv[3]))
             if fv[0] == "attr" and fv[1] == ("v", "operator") and fv[2] in ("gt", "lt", "ge", "le", "eq", "ne") and len(args) == 2:
                 op_ = {"gt": ">", "lt": "<", "ge": ">=", "le": "<=", "eq": "==", "ne": "!="}[fv[2]]
                 return simp(("cmp", op_, args[0], args[1]))
+            if fv[0] == "attr" and fv[1] == ("v", "self") and self.cls_name and st.env.get("self") == ("v", "self") and depth < self.inline_depth:
+                m = self.prog.resolve_method(self.cls_name, fv[2])     # a bound method passed around as a value
+                if m is not None and not any(isinstance(d, ast.Name) and d.id == "staticmethod" for d in m.node.decorator_list):
+                    return self.inline(m, (("v", "self"),) + args, kws, st, depth)
             if fv[0] != "v" or fv[1] != c.func.id:
                 return ("apply", fv, args, kws)
         if isinstance(c.func, ast.Attribute) and isinstance(c.func.value, ast.Call) and isinstance(c.func.value.func, ast.Name) \
@@ -1004,6 +1023,49 @@ class SymX:
             if callees or not isinstance(c.func.value, ast.Name) or c.func.value.id in st.env:
                 return ("mcall", recv, c.func.attr, args, kws)
         return simp(("call", name, args, kws))
+
+    def _map_as_comprehension(self, c, name, st, f, depth):
+        """map(fn, xs) == (fn(x) for x in xs); filter(fn, xs) == (x for x in xs if fn(x)) - evaluated as that generator."""
+        fv = self.expr(c.args[0], st, f, depth)
+        known = fv[0] == "closure" or (fv[0] == "v" and fv[1] in f.mod.funcs) or \
+            (fv[0] == "call" and fv[1] in ("attrgetter", "operator.attrgetter", "itemgetter", "operator.itemgetter", "methodcaller", "operator.methodcaller"))
+        if not known:
+            return None
+        n = next(self._ids)
+        fn, x = "$mf%d" % n, "$mx%d" % n
+        st.env[fn] = fv
+        call = ast.Call(func=ast.Name(id=fn, ctx=ast.Load()), args=[ast.Name(id=x, ctx=ast.Load())], keywords=[])
+        gen = ast.comprehension(target=ast.Name(id=x, ctx=ast.Store()), iter=c.args[1], ifs=[call] if name == "filter" else [], is_async=0)
+        ge = ast.GeneratorExp(elt=call if name == "map" else ast.Name(id=x, ctx=ast.Load()), generators=[gen])
+        for node in ast.walk(ge):
+            if node is not c.args[1] and not hasattr(node, "lineno"):
+                ast.copy_location(node, c)
+        ast.copy_location(ge, c)
+        ge.parent = c
+        gen.parent = ge
+        return self.expr(ge, st, f, depth)
+
+    def _reduce_as_loop(self, c, st, f, depth):
+        """functools.reduce(fn, xs, start)  ==  acc = start; for x in xs: acc = fn(acc, x) - evaluated as that loop."""
+        fv = self.expr(c.args[0], st, f, depth)
+        if fv[0] != "closure" and not (fv[0] == "v" and fv[1] in f.mod.funcs):
+            return None
+        n = next(self._ids)
+        fn, acc, x = "$rf%d" % n, "$racc%d" % n, "$rx%d" % n
+        st.env[fn] = fv
+        st.env[acc] = self.expr(c.args[2], st, f, depth)
+        step = ast.Assign(targets=[ast.Name(id=acc, ctx=ast.Store())],
+                          value=ast.Call(func=ast.Name(id=fn, ctx=ast.Load()), args=[ast.Name(id=acc, ctx=ast.Load()), ast.Name(id=x, ctx=ast.Load())], keywords=[]))
+        loop = ast.For(target=ast.Name(id=x, ctx=ast.Store()), iter=c.args[1], body=[step], orelse=[])
+        for node in ast.walk(loop):
+            if node is not c.args[1] and not hasattr(node, "lineno"):
+                ast.copy_location(node, c)
+        for node in (loop, step):
+            ast.copy_location(node, c)
+        loop.parent = c
+        step.parent = loop
+        self.for_loop(loop, st, f, depth)
+        return st.env[acc]
 
     def inline(self, m, args, kws, st, depth):
         sub = State()
@@ -1241,6 +1303,12 @@ def classify(loop):
                 ext[c] = v
                 if none_seeded:
                     ext[seed_cond] = v
+                continue
+        # acc = max(acc, e) / min(acc, e)
+        if u[0] == "call" and u[1] in ("max", "min") and len(u[2]) == 2 and not u[3] and acc in u[2]:
+            e = u[2][1] if u[2][0] == acc else u[2][0]
+            if not mentions_acc(e, loop.id):
+                out[v] = Fold("EXT", sense=u[1], strict=None, init=init, term=e, cond=None, none_seeded=False, truthy_seed=False)
                 continue
         # tie test first: `if tie(e, best): ... elif e > best: best = e`
         if u[0] == "ite" and u[2] == acc and u[3][0] == "ite" and u[3][3] == acc and u[3][1][0] == "cmp" and u[3][1][1] in ("<", "<=") \
